@@ -20,6 +20,7 @@ pub enum VariableExpression {
     Function(UnresolvedFunction),
     Method(UnresolvedFunction),
     Type(ir::TypeId),
+    TemplateValue(ir::TemplateValueId),
 }
 
 /// Set of overloaded functions
@@ -98,6 +99,11 @@ fn parse_identifier(
         VariableExpression::Method(func) => TypedExpression::MethodInternal(func),
         VariableExpression::Type(ty) => {
             return Err(TyperError::ExpectedExpressionReceivedType(id.clone(), ty));
+        }
+        VariableExpression::TemplateValue(_) => {
+            // The value is only known in an instance of the template - where the name is a constant
+            // Parameter types and default values are processed for the template itself
+            return Err(TyperError::TemplateValueInSignature(id.get_location()));
         }
     })
 }
